@@ -1,4 +1,1 @@
 package ledger
-
-func (r *run) checkC11(n *Node, h uint32) {}
-func (r *run) finalC11(n *Node)           {}
